@@ -33,6 +33,14 @@ def solver_check(fn):
                 raise
             R, tech = holder["R"], holder.get("tech", "abstract interpretation")
             R.add(req_ob("R-INTERP", "src/bldfm/solver.py::steady_state_transport_solver", "the property's own rules can be evaluated on the abstract solver runs", None, detail=str(e)))
+        # safety net: if some returned field of some run could not be modelled (its spectral coefficient is not an
+        # algebraic value), a value rule that fails may fail because of that gap; such verdicts are analysis gaps
+        gaps = output_gaps(SA)
+        if gaps:
+            for o in R.obs:
+                if o.verdict == "differs":
+                    o.verdict = "uninterpretable"
+                    o.detail = "the abstract solver run has unmodelled parts (%s), so this failed comparison is not a verdict: %s" % (gaps[0], o.detail)
         R.add(SA.fault_obs())
         R.add(grid_obs(SA))
         R.add(dtype_obs(SA))
@@ -126,6 +134,24 @@ def index_obs(SA):
     if not seen:
         return [req_ob("R-INDEX", site, "no array is read at an index that can be negative for legal inputs (%d paths)" % n, True)]
     return [req_ob("R-INDEX", site, "no array is read at an index that can be negative for legal inputs", False, detail="%s: %s" % k, key={"where": k[0]}) for k in sorted(seen)]
+
+
+def output_gaps(SA):
+    out = []
+    for key, (S, res) in SA.runs.items():
+        for r in res:
+            if r.kind != "return":
+                continue
+            try:
+                v = RS.PathView(S, r)
+            except AnalysisError as e:
+                out.append("footprint=%s analytic=%s %s mode: %s" % (key[0], key[1], key[2], str(e)[:120]))
+                continue
+            for nm in ("conc", "flx"):
+                c = v.fields[nm]["synth"]["coeff"]
+                if not isinstance(c, Expr):
+                    out.append("footprint=%s analytic=%s %s mode: %s coefficient is %s" % (key[0], key[1], key[2], nm, repr(c)[:100]))
+    return out
 
 
 def grid_obs(SA):
